@@ -62,14 +62,26 @@ type replay struct {
 var t0 = time.Date(2026, 3, 1, 12, 0, 0, 0, time.UTC)
 
 func prioNum(p string) int {
-	if p == "hi" {
+	switch p {
+	case "hi":
 		return 1
+	case "mid":
+		return 2
+	case "lo":
+		return 3
+	case "p4":
+		return 4
+	case "p5":
+		return 5
 	}
-	return 2
+	return 3
 }
 
 func genScenario(r *sim.Rand, shutdown bool) scenario {
 	s := scenario{QuotaMax: int64(r.Range(1, 2)), WindowS: int64(r.Range(1, 2)), Size: int64(r.Range(1, 4)), TTLS: int64(r.Range(1, 2))}
+	if !shutdown && r.Chance(1, 3) {
+		return genLongQueue(r)
+	}
 	n := r.Range(2, 7)
 	at := int64(r.Range(20, 80))
 	holdUsed := false
@@ -110,6 +122,36 @@ func genScenario(r *sim.Rand, shutdown bool) scenario {
 	return s
 }
 
+// genLongQueue: window 2 s, TTL 1 s, up to 8 waiters of three priorities arriving all over the first window.
+// Early arrivals time out - and are removed from the middle of the heap - while later ones keep waiting;
+// the window then opens with 5+ waiters of mixed priority left, admitted 1-3 per window (order is judged
+// on every admission).
+func genLongQueue(r *sim.Rand) scenario {
+	s := scenario{QuotaMax: int64(r.Range(1, 3)), WindowS: 2, Size: 8, TTLS: 1}
+	var ats []int64
+	n := r.Range(10, 13)
+	for i := 0; i < n; i++ {
+		at := int64(r.Range(30, 1960))
+		if i < int(s.QuotaMax) {
+			at = int64(r.Range(20, 60)) // these use up the first window
+		}
+		if at%100 == 0 {
+			at += 7
+		}
+		ats = append(ats, at)
+	}
+	sort.Slice(ats, func(i, j int) bool { return ats[i] < ats[j] })
+	for i, at := range ats {
+		if i > 0 && at <= ats[i-1] {
+			at = ats[i-1] + 1
+			ats[i] = at
+		}
+		s.Arrivals = append(s.Arrivals, arrival{ID: fmt.Sprintf("q%d", i), AtMs: at, Prio: sim.Pick(r, []string{"hi", "mid", "lo", "p4", "p5"})})
+	}
+	s.EndMs = ats[len(ats)-1] + (s.TTLS+s.WindowS)*1000 + 500
+	return s
+}
+
 func quotaYAML(s scenario) string {
 	return fmt.Sprintf("quotas:\n  - id: qq\n    filter:\n      url: a.com/*\n    strategy:\n      fixed_window:\n        max: %d\n        interval: %d\n        interval_unit: second\n", s.QuotaMax, s.WindowS)
 }
@@ -133,7 +175,10 @@ processors:
       - key: priority_groups
         value:
           hi: 1
-          lo: 2
+          mid: 2
+          lo: 3
+          p4: 4
+          p5: 5
   TooMany:
     processor: GenerateResponse
     parameters:
